@@ -124,6 +124,14 @@ class SimFS:
     def touch(self, p):
         self.files[self._follow(p)][1] = self.now
 
+    def get_mtime(self, p):
+        return self.files[self._follow(p)][1]
+
+    def set_mtime(self, p, m):
+        """cp -p / rsync -t / touch -r: a content change that keeps the
+        modification time"""
+        self.files[self._follow(p)][1] = m
+
     def unlink(self, p):
         if p in self.links:
             del self.links[p]        # the target stays
@@ -484,6 +492,12 @@ class RealFS:
 
     def touch(self, p):
         self._utime(p)
+
+    def get_mtime(self, p):
+        return os.stat(p).st_mtime
+
+    def set_mtime(self, p, m):
+        os.utime(p, (m, m))
 
     def unlink(self, p):
         os.unlink(p)
